@@ -2,7 +2,12 @@ use crate::acme_proto::structs::Directory;
 use crate::duration::parse_duration;
 use acme_common::error::Error;
 use std::cmp;
+#[cfg(not(feature = "breard_r_acmed_verif"))]
 use std::time::{Duration, Instant};
+#[cfg(feature = "breard_r_acmed_verif")]
+use std::time::Duration;
+#[cfg(feature = "breard_r_acmed_verif")]
+use tokio::time::Instant;
 use tokio::time::sleep;
 
 #[derive(Clone, Debug)]
@@ -75,10 +80,22 @@ impl RateLimit {
 			self.prune_log();
 			if self.request_allowed() {
 				self.query_log.push(Instant::now());
+				#[cfg(feature = "breard_r_acmed_verif")]
+				crate::verif_probe::on_admit(self);
 				return;
 			}
 			sleep_duration = self.get_sleep_duration();
 		}
+	}
+
+	#[cfg(feature = "breard_r_acmed_verif")]
+	pub fn verif_query_log(&self) -> &[Instant] {
+		&self.query_log
+	}
+
+	#[cfg(feature = "breard_r_acmed_verif")]
+	pub fn verif_limits(&self) -> &[(usize, Duration)] {
+		&self.limits
 	}
 
 	fn get_sleep_duration(&self) -> Duration {
